@@ -1083,4 +1083,638 @@ theorem V6.fromInt_ok (n : Nat) (h : n < 2 ^ 128) : V6.fromInt (Int.ofNat n) = .
   simp only [this, if_true, finishNet_false]
   rfl
 
+/-! ### converse direction: what an accepted IPv4 text looks like -/
+
+theorem head_dropWhile {p : Char → Bool} (l : Str) : ∀ c, (l.dropWhile p).head? = some c → p c = false := by
+  induction l with
+  | nil => intro c h; simp at h
+  | cons a as ih =>
+    intro c h
+    by_cases ha : p a = true
+    · simp only [List.dropWhile_cons, ha, if_true] at h; exact ih c h
+    · have ha' : p a = false := by simpa using ha
+      simp only [List.dropWhile_cons, ha', Bool.false_eq_true, if_false, List.head?_cons, Option.some.injEq] at h
+      rw [← h]; exact ha'
+
+theorem mem_takeWhile {p : Char → Bool} (l : Str) : ∀ c ∈ l.takeWhile p, p c = true := by
+  induction l with
+  | nil => intro c h; simp at h
+  | cons a as ih =>
+    intro c h
+    by_cases ha : p a = true
+    · simp only [List.takeWhile_cons, ha, if_true, List.mem_cons] at h
+      rcases h with h | h
+      · rw [h]; exact ha
+      · exact ih c h
+    · have ha' : p a = false := by simpa using ha
+      simp [List.takeWhile_cons, ha'] at h
+
+/-- a non-empty run of `\d` characters -/
+def IsRun (ds : Str) : Prop := ds ≠ [] ∧ ∀ c ∈ ds, isReDigit c = true
+
+theorem digitsDot_sound (s ds r : Str) (h : digitsDot s = some (ds, r)) : s = ds ++ '.' :: r ∧ IsRun ds := by
+  unfold digitsDot at h
+  by_cases hne : s.takeWhile isReDigit = []
+  · simp [hne] at h
+  · simp only [hne, if_false] at h
+    cases hd : s.dropWhile isReDigit with
+    | nil => rw [hd] at h; cases h
+    | cons x r' =>
+      rw [hd] at h
+      by_cases hx : x = '.'
+      · subst hx
+        simp only [Option.some.injEq, Prod.mk.injEq] at h
+        obtain ⟨rfl, rfl⟩ := h
+        refine ⟨?_, hne, mem_takeWhile s⟩
+        have := List.takeWhile_append_dropWhile (p := isReDigit) (l := s)
+        rw [hd] at this; exact this.symm
+      · exfalso
+        split at h
+        · rename_i r'' heq
+          exact hx (List.cons.inj heq).1
+        · cases h
+
+/-- the shape `\d+\.\d+\.\d+\.\d+` -/
+def IsQuadText (m : Str) : Prop :=
+  ∃ a b c d, IsRun a ∧ IsRun b ∧ IsRun c ∧ IsRun d ∧ m = a ++ '.' :: (b ++ '.' :: (c ++ '.' :: d))
+
+theorem quad_sound (s m r : Str) (h : quad s = some (m, r)) : s = m ++ r ∧ IsQuadText m ∧ NoDigitHead r := by
+  unfold quad at h
+  split at h
+  · cases h
+  · rename_i a r1 h1
+    split at h
+    · cases h
+    · rename_i b r2 h2
+      split at h
+      · cases h
+      · rename_i c r3 h3
+        simp only at h
+        split at h
+        · cases h
+        · rename_i hne
+          cases h
+          have s1 := digitsDot_sound _ _ _ h1
+          have s2 := digitsDot_sound _ _ _ h2
+          have s3 := digitsDot_sound _ _ _ h3
+          have s4 := List.takeWhile_append_dropWhile (p := isReDigit) (l := r3)
+          refine ⟨?_, ⟨a, b, c, _, s1.2, s2.2, s3.2, ⟨hne, mem_takeWhile r3⟩, by simp⟩, head_dropWhile r3⟩
+          rw [s1.1, s2.1, s3.1]
+          conv => lhs; rw [← s4]
+          simp
+
+theorem isSpace_of_isReDigit (c : Char) (h : isReDigit c = true) : isSpace c = false := by
+  cases hs : isSpace c with
+  | false => rfl
+  | true => rw [isReDigit_of_isSpace c hs] at h; cases h
+
+theorem run_ne (ds : Str) (h : IsRun ds) (x : Char) (hx : isReDigit x = false) : ∀ c ∈ ds, c ≠ x := by
+  intro c hc; rintro rfl; rw [h.2 c hc] at hx; cases hx
+
+theorem quadText_chars (m : Str) (h : IsQuadText m) : ∀ c ∈ m, isReDigit c = true ∨ c = '.' := by
+  obtain ⟨a, b, c, d, ha, hb, hc, hd, rfl⟩ := h
+  intro x hx
+  simp only [List.mem_append, List.mem_cons] at hx
+  rcases hx with h | h | h | h | h | h | h
+  · exact Or.inl (ha.2 x h)
+  · exact Or.inr h
+  · exact Or.inl (hb.2 x h)
+  · exact Or.inr h
+  · exact Or.inl (hc.2 x h)
+  · exact Or.inr h
+  · exact Or.inl (hd.2 x h)
+
+theorem quadText_ne (m : Str) (h : IsQuadText m) (x : Char) (hx : isReDigit x = false) (hd : x ≠ '.') :
+    ∀ c ∈ m, c ≠ x := by
+  intro c hc
+  rcases quadText_chars m h c hc with h1 | h1
+  · rintro rfl; rw [h1] at hx; cases hx
+  · rw [h1]; exact fun e => hd e.symm
+
+theorem quadText_noSpace (m : Str) (h : IsQuadText m) : ∀ c ∈ m, isSpace c = false := by
+  intro c hc
+  rcases quadText_chars m h c hc with h1 | h1
+  · exact isSpace_of_isReDigit c h1
+  · rw [h1]; exact isSpace_dot
+
+theorem splitOn_quadText (a b c d : Str) (ha : IsRun a) (hb : IsRun b) (hc : IsRun c) (hd : IsRun d) :
+    splitOn '.' (a ++ '.' :: (b ++ '.' :: (c ++ '.' :: d))) = [a, b, c, d] := by
+  have hdot : isReDigit '.' = false := by decide
+  rw [splitOn_append_sep '.' a _ (run_ne a ha '.' hdot), splitOn_append_sep '.' b _ (run_ne b hb '.' hdot),
+    splitOn_append_sep '.' c _ (run_ne c hc '.' hdot), splitOn_noSep '.' d (run_ne d hd '.' hdot)]
+
+
+theorem digitChar_table : ∀ k : Fin 58, 48 ≤ k.val → Nat.digitChar (k.val - 48) = Char.ofNat k.val := by decide
+
+theorem digitChar_digitVal (c : Char) (h : isDigit c = true) : Nat.digitChar (digitVal c) = c ∧ digitVal c < 10 := by
+  unfold isDigit at h
+  simp only [Bool.and_eq_true, decide_eq_true_eq] at h
+  unfold digitVal
+  refine ⟨?_, by omega⟩
+  have := digitChar_table ⟨c.toNat, by omega⟩ h.1
+  simp only at this
+  rw [this, Char.ofNat_toNat]
+
+theorem parseOctet_sound (s : Str) (v : Nat) (h : parseOctet s = some v) : s = toDec v ∧ v ≤ 255 := by
+  unfold parseOctet at h
+  split at h
+  · cases h
+  · rename_i hne0
+    split at h
+    · cases h
+    · rename_i hall
+      split at h
+      · cases h
+      · rename_i hlen
+        split at h
+        · cases h
+        · rename_i hz
+          have hall : ∀ c ∈ s, isDigit c = true := by
+            have : s.all isDigit = true := by simpa using hall
+            exact List.all_eq_true.mp this
+          split at h
+          · rename_i n hn
+            split at h
+            · cases h
+            · rename_i h255
+              cases h
+              refine ⟨?_, by omega⟩
+              match s, hne0, hall, hlen, hz, hn with
+              | [c1], _, hall, _, _, hn =>
+                have d1 := digitChar_digitVal c1 (hall c1 (by simp))
+                simp [ofDigits, ofDigitsAux, hall c1 (by simp)] at hn
+                subst hn
+                rcases toDec_cases (digitVal c1) (by omega) with ⟨_, e⟩ | ⟨h10, _⟩ | ⟨h100, _⟩
+                · rw [e, d1.1]
+                · omega
+                · omega
+              | [c1, c2], _, hall, _, hz, hn =>
+                have d1 := digitChar_digitVal c1 (hall c1 (by simp))
+                have d2 := digitChar_digitVal c2 (hall c2 (by simp))
+                simp [ofDigits, ofDigitsAux, hall c1 (by simp), hall c2 (by simp)] at hn
+                have hnz : digitVal c1 ≠ 0 := by
+                  intro e0
+                  apply hz
+                  refine ⟨by simp, ?_⟩
+                  have := d1.1; rw [e0] at this
+                  simp [← this]
+                subst hn
+                rcases toDec_cases (digitVal c1 * 10 + digitVal c2) (by omega) with ⟨h1, _⟩ | ⟨_, _, e⟩ | ⟨h100, _⟩
+                · omega
+                · rw [e]
+                  have e1 : (digitVal c1 * 10 + digitVal c2) / 10 = digitVal c1 := by omega
+                  have e2 : (digitVal c1 * 10 + digitVal c2) % 10 = digitVal c2 := by omega
+                  rw [e1, e2, d1.1, d2.1]
+                · omega
+              | [c1, c2, c3], _, hall, _, hz, hn =>
+                have d1 := digitChar_digitVal c1 (hall c1 (by simp))
+                have d2 := digitChar_digitVal c2 (hall c2 (by simp))
+                have d3 := digitChar_digitVal c3 (hall c3 (by simp))
+                simp [ofDigits, ofDigitsAux, hall c1 (by simp), hall c2 (by simp), hall c3 (by simp)] at hn
+                have hnz : digitVal c1 ≠ 0 := by
+                  intro e0
+                  apply hz
+                  refine ⟨by simp, ?_⟩
+                  have := d1.1; rw [e0] at this
+                  simp [← this]
+                subst hn
+                rcases toDec_cases ((digitVal c1 * 10 + digitVal c2) * 10 + digitVal c3) (by omega) with
+                  ⟨h1, _⟩ | ⟨_, h2, _⟩ | ⟨_, e⟩
+                · omega
+                · omega
+                · rw [e]
+                  have e1 : ((digitVal c1 * 10 + digitVal c2) * 10 + digitVal c3) / 100 = digitVal c1 := by omega
+                  have e2 : ((digitVal c1 * 10 + digitVal c2) * 10 + digitVal c3) / 10 % 10 = digitVal c2 := by omega
+                  have e3 : ((digitVal c1 * 10 + digitVal c2) * 10 + digitVal c3) % 10 = digitVal c3 := by omega
+                  rw [e1, e2, e3, d1.1, d2.1, d3.1]
+              | [], h0, _, _, _, _ => exact absurd rfl h0
+              | _ :: _ :: _ :: _ :: _, _, _, hlen, _, _ => simp at hlen
+          · cases h
+
+
+theorem quadText_ne_nil (m : Str) (h : IsQuadText m) : m ≠ [] := by
+  obtain ⟨a, b, c, d, ha, _, _, _, rfl⟩ := h
+  intro e
+  cases ha' : a with
+  | nil => exact ha.1 ha'
+  | cons x xs => rw [ha'] at e; cases e
+
+/-- a dotted-quad shaped text that the stdlib accepts is the canonical text of its value -/
+theorem stdV4Int_sound (m : Str) (v : Nat) (hq : IsQuadText m) (h : stdV4Int m = some v) :
+    m = strV4 v ∧ v < 4294967296 := by
+  obtain ⟨a, b, c, d, ha, hb, hc, hd, rfl⟩ := hq
+  unfold stdV4Int at h
+  rw [if_neg (quadText_ne_nil _ ⟨a, b, c, d, ha, hb, hc, hd, rfl⟩), splitOn_quadText a b c d ha hb hc hd] at h
+  simp only at h
+  cases h1 : parseOctet a with
+  | none => rw [h1] at h; cases h
+  | some v1 =>
+    cases h2 : parseOctet b with
+    | none => rw [h1, h2] at h; cases h
+    | some v2 =>
+      cases h3 : parseOctet c with
+      | none => rw [h1, h2, h3] at h; cases h
+      | some v3 =>
+        cases h4 : parseOctet d with
+        | none => rw [h1, h2, h3, h4] at h; cases h
+        | some v4 =>
+          rw [h1, h2, h3, h4] at h
+          simp only [Option.some.injEq] at h
+          have s1 := parseOctet_sound a v1 h1
+          have s2 := parseOctet_sound b v2 h2
+          have s3 := parseOctet_sound c v3 h3
+          have s4 := parseOctet_sound d v4 h4
+          have hv : v = ((v1 * 256 + v2) * 256 + v3) * 256 + v4 := by
+            rw [← h]; simp [fromBytes]
+          refine ⟨?_, by omega⟩
+          rw [strV4_eq, s1.1, s2.1, s3.1, s4.1]
+          have e1 : v / 16777216 % 256 = v1 := by omega
+          have e2 : v / 65536 % 256 = v2 := by omega
+          have e3 : v / 256 % 256 = v3 := by omega
+          have e4 : v % 256 = v4 := by omega
+          rw [e1, e2, e3, e4]
+
+/-! `_prefix_from_ip_int` accepts exactly the netmasks -/
+theorem ctz_le (b n : Nat) : ctz b n ≤ b := by
+  induction b generalizing n with
+  | zero => simp [ctz]
+  | succ k ih =>
+    unfold ctz
+    split
+    · have := ih (n / 2); omega
+    · omega
+
+theorem ctz_dvd (b n : Nat) : n % 2 ^ ctz b n = 0 := by
+  induction b generalizing n with
+  | zero => simp [ctz, Nat.mod_one]
+  | succ k ih =>
+    unfold ctz
+    split
+    · rename_i he
+      have := ih (n / 2)
+      rw [Nat.pow_succ', Nat.mod_mul, this, he]
+    · simp [Nat.mod_one]
+
+theorem prefixFromIpInt_sound (m len : Nat) (h : prefixFromIpInt 32 m = some len) :
+    len ≤ 32 ∧ m = 2 ^ 32 - 2 ^ (32 - len) := by
+  unfold prefixFromIpInt at h
+  simp only at h
+  split at h
+  · rename_i heq
+    cases h
+    have hle := ctz_le 32 m
+    have hd := ctz_dvd 32 m
+    refine ⟨by omega, ?_⟩
+    generalize ctz 32 m = t at *
+    rw [Nat.shiftRight_eq_div_pow] at heq
+    have hm : m = 2 ^ t * (m / 2 ^ t) := by
+      have := Nat.div_add_mod m (2 ^ t); omega
+    rw [heq] at hm
+    have e : 32 - (32 - t) = t := by omega
+    rw [e, hm, Nat.mul_sub, Nat.mul_one, ← Nat.pow_add]
+    congr 2; omega
+  · cases h
+
+
+theorem xor_allOnes_tables : ∀ len, len ≤ 32 →
+    (2 ^ 32 - 2 ^ (32 - len)) ^^^ allOnes 32 = 2 ^ (32 - len) - 1 ∧
+    (len = 0 → prefixFromIpInt 32 (2 ^ (32 - len) - 1) ≠ none) ∧
+    (len = 32 → prefixFromIpInt 32 (2 ^ (32 - len) - 1) ≠ none) := by decide
+
+/-- a mask value the stdlib reads as `/len` is the netmask of `len`, or (0 < len < 32) its hostmask -/
+theorem readsAs_sound (mv len : Nat) (h : ReadsAs mv len) :
+    len ≤ 32 ∧ (mv = 2 ^ 32 - 2 ^ (32 - len) ∨ (0 < len ∧ len < 32 ∧ mv = 2 ^ (32 - len) - 1)) := by
+  rcases h with h | ⟨h0, h⟩
+  · have := prefixFromIpInt_sound mv len h
+    exact ⟨this.1, Or.inl this.2⟩
+  · have hs := prefixFromIpInt_sound _ len h
+    have ht := xor_allOnes_tables len hs.1
+    have hmv : mv = 2 ^ (32 - len) - 1 := by
+      have : mv = (mv ^^^ allOnes 32) ^^^ allOnes 32 := by
+        rw [Nat.xor_assoc, Nat.xor_self, Nat.xor_zero]
+      rw [this, hs.2, ht.1]
+    refine ⟨hs.1, Or.inr ⟨?_, ?_, hmv⟩⟩
+    · rcases Nat.eq_zero_or_pos len with e | e
+      · exact absurd (hmv ▸ h0) (ht.2.1 e)
+      · exact e
+    · rcases Nat.lt_or_ge len 32 with e | e
+      · exact e
+      · exact absurd (hmv ▸ h0) (ht.2.2 (by omega))
+
+theorem makeNetmask4_run_sound (p : Str) (len : Nat) (hp : IsRun p) (h : makeNetmask4 p = .ok len) :
+    (∀ c ∈ p, isDigit c = true) ∧ ofDigits p = some len ∧ len ≤ 32 := by
+  unfold makeNetmask4 at h
+  cases h1 : prefixFromPrefixString 32 p with
+  | some v =>
+    rw [h1] at h
+    cases h
+    unfold prefixFromPrefixString at h1
+    split at h1
+    · rename_i hc
+      split at h1
+      · rename_i n hn
+        split at h1
+        · cases h1
+          exact ⟨List.all_eq_true.mp hc.2, hn, by assumption⟩
+        · cases h1
+      · cases h1
+    · cases h1
+  | none =>
+    rw [h1] at h
+    have : prefixFromIpString p = none := by
+      unfold prefixFromIpString stdV4Int
+      rw [splitOn_noSep '.' p (run_ne p hp '.' (by decide))]
+      simp [hp.1]
+    rw [this] at h
+    cases h
+
+theorem makeNetmask4_quad_sound (m : Str) (len : Nat) (hm : IsQuadText m) (h : makeNetmask4 m = .ok len) :
+    ∃ mv, mv < 4294967296 ∧ m = strV4 mv ∧ ReadsAs mv len := by
+  unfold makeNetmask4 at h
+  cases h1 : prefixFromPrefixString 32 m with
+  | some v =>
+    exfalso
+    unfold prefixFromPrefixString at h1
+    split at h1
+    · rename_i hc
+      have hall := List.all_eq_true.mp hc.2
+      obtain ⟨a, b, c, d, _, _, _, _, rfl⟩ := hm
+      have := hall '.' (by simp)
+      revert this; decide
+    · cases h1
+  | none =>
+    rw [h1] at h
+    simp only at h
+    unfold prefixFromIpString at h
+    cases h2 : stdV4Int m with
+    | none => rw [h2] at h; cases h
+    | some mv =>
+      rw [h2] at h
+      have hs := stdV4Int_sound m mv hm h2
+      refine ⟨mv, hs.2, hs.1, ?_⟩
+      simp only at h
+      cases h3 : prefixFromIpInt 32 mv with
+      | some p =>
+        rw [h3] at h
+        simp only at h
+        cases h
+        exact Or.inl h3
+      | none =>
+        rw [h3] at h
+        simp only at h
+        cases h4 : prefixFromIpInt 32 (mv ^^^ allOnes 32) with
+        | none => rw [h4] at h; cases h
+        | some p => rw [h4] at h; cases h; exact Or.inr ⟨h3, h4⟩
+
+
+/-- what a successful match of the IPv4 regex looks like -/
+inductive V4Shape (s : Str) (g : V4Groups) : Prop
+  | plain (a : Str) (ha : IsQuadText a) (hs : s = a) (hg : g = { nomask := a })
+  | pfx (a p : Str) (ha : IsQuadText a) (hp : IsRun p) (hs : s = a ++ '/' :: p)
+      (hg : g = { addrPrefixlen := a, masklen := p })
+  | slashMask (a m : Str) (ha : IsQuadText a) (hm : IsQuadText m) (hs : s = a ++ '/' :: m)
+      (hg : g = { addrNetmask := a, netmask := m })
+  | spaceMask (a ws m : Str) (ha : IsQuadText a) (hm : IsQuadText m) (hws : ws ≠ [])
+      (hsp : ∀ c ∈ ws, isSpace c = true) (hs : s = a ++ ws ++ m) (hg : g = { addrNetmask := a, netmask := m })
+
+theorem matchV4_sound (s : Str) (g : V4Groups) (h : matchV4 s = some g) : V4Shape s g := by
+  unfold matchV4 at h
+  cases hq : quad s with
+  | none => rw [hq] at h; cases h
+  | some ar =>
+    obtain ⟨a, rest⟩ := ar
+    rw [hq] at h
+    have sq := quad_sound s a rest hq
+    simp only at h
+    cases rest with
+    | nil =>
+      simp only [Option.some.injEq] at h
+      exact .plain a sq.2.1 (by rw [sq.1]; simp) h.symm
+    | cons c r =>
+      simp only at h
+      by_cases hc : c = '/'
+      · subst hc
+        simp only [if_true] at h
+        cases hq2 : quad r with
+        | none =>
+          rw [hq2] at h
+          simp only at h
+          by_cases hf : fullDigits r = true
+          · simp only [hf, if_true, Option.some.injEq] at h
+            unfold fullDigits at hf
+            simp only [Bool.and_eq_true, ne_eq, List.all_eq_true, decide_eq_true_eq] at hf
+            exact .pfx a r sq.2.1 ⟨hf.1, hf.2⟩ sq.1 h.symm
+          · simp [hf] at h
+        | some mr =>
+          obtain ⟨m, r2⟩ := mr
+          rw [hq2] at h
+          have sq2 := quad_sound r m r2 hq2
+          cases r2 with
+          | nil =>
+            simp only [Option.some.injEq] at h
+            have : r = m := by rw [sq2.1]; simp
+            exact .slashMask a m sq.2.1 sq2.2.1 (by rw [sq.1, this]) h.symm
+          | cons x xs =>
+            simp only at h
+            by_cases hf : fullDigits r = true
+            · exfalso
+              -- a run of digits cannot contain the dot of the quad
+              unfold fullDigits at hf
+              simp only [Bool.and_eq_true, List.all_eq_true] at hf
+              obtain ⟨a', b', c', d', _, _, _, _, rfl⟩ := sq2.2.1
+              have := hf.2 '.' (by rw [sq2.1]; simp)
+              revert this; decide
+            · simp [hf] at h
+      · simp only [hc, if_false] at h
+        by_cases hsp : isSpace c = true
+        · simp only [hsp, if_true] at h
+          cases hq2 : quad (r.dropWhile isSpace) with
+          | none => rw [hq2] at h; cases h
+          | some mr =>
+            obtain ⟨m, r2⟩ := mr
+            rw [hq2] at h
+            have sq2 := quad_sound _ m r2 hq2
+            cases r2 with
+            | nil =>
+              simp only [Option.some.injEq] at h
+              have e1 : r.dropWhile isSpace = m := by rw [sq2.1]; simp
+              have e2 := List.takeWhile_append_dropWhile (p := isSpace) (l := r)
+              refine .spaceMask a (c :: r.takeWhile isSpace) m sq.2.1 sq2.2.1 (by simp) ?_ ?_ h.symm
+              · intro x hx
+                rcases List.mem_cons.mp hx with hx | hx
+                · rw [hx]; exact hsp
+                · exact mem_takeWhile r x hx
+              · rw [sq.1, ← e1]
+                conv => lhs; rw [← e2]
+                simp
+            | cons x xs => simp only at h; cases h
+        · simp [hsp] at h
+
+
+theorem makeNetmask4_le (s : Str) (len : Nat) (h : makeNetmask4 s = .ok len) : len ≤ 32 := by
+  unfold makeNetmask4 at h
+  cases h1 : prefixFromPrefixString 32 s with
+  | some v =>
+    rw [h1] at h; cases h
+    unfold prefixFromPrefixString at h1
+    split at h1
+    · split at h1
+      · split at h1
+        · cases h1; assumption
+        · cases h1
+      · cases h1
+    · cases h1
+  | none =>
+    rw [h1] at h
+    simp only at h
+    unfold prefixFromIpString at h
+    cases h2 : stdV4Int s with
+    | none => rw [h2] at h; cases h
+    | some mv =>
+      rw [h2] at h
+      simp only at h
+      cases h3 : prefixFromIpInt 32 mv with
+      | some p => rw [h3] at h; cases h; exact (prefixFromIpInt_sound mv _ h3).1
+      | none =>
+        rw [h3] at h
+        simp only at h
+        cases h4 : prefixFromIpInt 32 (mv ^^^ allOnes 32) with
+        | none => rw [h4] at h; cases h
+        | some p => rw [h4] at h; cases h; exact (prefixFromIpInt_sound _ _ h4).1
+
+theorem V4.tail_inv (a mp : Str) (o : Obj) (ha : IsQuadText a) (hmp : ∀ c ∈ mp, c ≠ '/')
+    (h : (do
+      let ip ← stdV4Addr a
+      let n0 ← stdV4Net false (a ++ '/' :: mp)
+      let n ← stdV4Net false (strV4 ip ++ '/' :: toDec n0.2)
+      (pure ⟨ip, n.1, n.2⟩ : Except Err Obj)) = .ok o) :
+    ∃ ip len, ip < 4294967296 ∧ len ≤ 32 ∧ a = strV4 ip ∧ makeNetmask4 mp = .ok len ∧ o = mk4 ip len := by
+  cases e1 : stdV4Addr a with
+  | error e => simp [bind, Except.bind, e1] at h
+  | ok ip =>
+    have hip : stdV4Int a = some ip := by
+      unfold stdV4Addr at e1
+      split at e1
+      · cases e1
+      · split at e1
+        · rename_i n hn; cases e1; exact hn
+        · cases e1
+    have hs := stdV4Int_sound a ip ha hip
+    obtain ⟨rfl, hlt⟩ := hs
+    cases e2 : makeNetmask4 mp with
+    | error e =>
+      exfalso
+      have : stdV4Net false (strV4 ip ++ '/' :: mp) = .error e := by
+        unfold stdV4Net splitOptionalNetmask
+        rw [splitOn_slash _ _ (strV4_ne ip '/' (by decide) (by decide)) hmp]
+        simp only [bind, Except.bind, stdV4Addr_strV4 ip hlt, e2]
+      simp [bind, Except.bind, e1, this] at h
+    | ok len =>
+      have hle := makeNetmask4_le mp len e2
+      have h0 := stdV4Net_of ip len mp hlt hmp e2
+      simp only [bind, Except.bind, e1, h0, stdV4Net_cidr ip len hlt hle, pure, Except.pure, Except.ok.injEq] at h
+      exact ⟨ip, len, hlt, hle, rfl, rfl, h.symm⟩
+
+
+theorem makeNetmask4_nil : makeNetmask4 [] = .error .netmaskValueError := by rfl
+theorem makeNetmask4_32 : makeNetmask4 "32".toList = .ok 32 := by rfl
+
+theorem quadText_ne_nil' (m : Str) (h : IsQuadText m) : ¬ m = [] := quadText_ne_nil m h
+
+/-- the fix-ups of `__init__` when the groups are (address, netmask) -/
+theorem V4.inv_mask (a m : Str) (o : Obj) (ha : IsQuadText a) (hm : IsQuadText m)
+    (h : (let g : V4Groups := { addrNetmask := a, netmask := m }
+     let netmask := g.netmask
+     let prefixlen := g.masklen
+     let prefixlen := if netmask = [] ∧ prefixlen = [] then "32".toList else prefixlen
+     let prefixlen := if !fullDigits (strip prefixlen) then [] else prefixlen
+     let netmask := if !fullQuad (strip netmask) then [] else netmask
+     let prefixlen := if netmask ≠ [] ∧ prefixlen ≠ [] then [] else prefixlen
+     let v4addr := g.nomask ++ g.addrNetmask ++ g.addrPrefixlen
+     let maskPrefixlen := netmask ++ prefixlen
+     if searchQuad v4addr then do
+       let ip ← stdV4Addr v4addr
+       let n0 ← stdV4Net false (v4addr ++ '/' :: maskPrefixlen)
+       let n ← stdV4Net false (strV4 ip ++ '/' :: toDec n0.2)
+       (pure ⟨ip, n.1, n.2⟩ : Except Err Obj)
+     else .error .addressValueError) = .ok o) :
+    ∃ ip len mv, ip < 4294967296 ∧ len ≤ 32 ∧ mv < 4294967296 ∧ a = strV4 ip ∧ m = strV4 mv ∧ ReadsAs mv len ∧
+      o = mk4 ip len := by
+  have hd : fullDigits (strip []) = false := by decide
+  have hsm : strip m = m := strip_noSpace m (quadText_noSpace m hm)
+  simp only [quadText_ne_nil' m hm, false_and, if_false, hd, Bool.not_false, if_true, hsm,
+    List.nil_append, List.append_nil, ne_eq, not_true_eq_false, and_false] at h
+  by_cases hsq : searchQuad a = true
+  · simp only [hsq, if_true] at h
+    by_cases hfq : fullQuad m = true
+    · simp only [hfq, Bool.not_true, Bool.false_eq_true, if_false] at h
+      obtain ⟨ip, len, h1, h2, h3, h4, h5⟩ := V4.tail_inv a m o ha (quadText_ne m hm '/' (by decide) (by decide)) h
+      obtain ⟨mv, g1, g2, g3⟩ := makeNetmask4_quad_sound m len hm h4
+      exact ⟨ip, len, mv, h1, h2, g1, h3, g2, g3, h5⟩
+    · have hfq' : fullQuad m = false := by simpa using hfq
+      simp only [hfq', Bool.not_false, if_true] at h
+      obtain ⟨ip, len, _, _, _, h4, _⟩ := V4.tail_inv a [] o ha (fun c hc => by simp at hc) h
+      rw [makeNetmask4_nil] at h4; cases h4
+  · simp [hsq] at h
+
+
+/-- **what an accepted IPv4 text is**: the canonical dotted quad of the stored address, followed by
+nothing, by `/digits`, or by `/` or blanks and the canonical dotted quad of a mask the stdlib reads as `/len` -/
+theorem V4.fromStr_inv (input : Str) (o : Obj) (h : V4.fromStr input = .ok o) :
+    ∃ ip len, ip < 4294967296 ∧ len ≤ 32 ∧ o = mk4 ip len ∧
+      ((len = 32 ∧ strip input = strV4 ip) ∨
+       (∃ p, p ≠ [] ∧ (∀ c ∈ p, isDigit c = true) ∧ ofDigits p = some len ∧ strip input = strV4 ip ++ '/' :: p) ∨
+       (∃ mv, mv < 4294967296 ∧ ReadsAs mv len ∧ strip input = strV4 ip ++ '/' :: strV4 mv) ∨
+       (∃ mv ws, mv < 4294967296 ∧ ReadsAs mv len ∧ ws ≠ [] ∧ (∀ c ∈ ws, isSpace c = true) ∧
+          strip input = strV4 ip ++ ws ++ strV4 mv)) := by
+  unfold V4.fromStr at h
+  cases hm : matchV4 (strip input) with
+  | none =>
+    exfalso
+    rw [hm] at h
+    have h32 : strip "32".toList = "32".toList := by decide
+    have hf : fullDigits "32".toList = true := by decide
+    have hq : fullQuad (strip []) = false := by decide
+    simp [h32, hf, hq, searchQuad] at h
+  | some g =>
+    rw [hm] at h
+    simp only [Option.getD_some] at h
+    cases matchV4_sound _ g hm with
+    | plain a ha hs hg =>
+      subst hg
+      have h32 : strip "32".toList = "32".toList := by decide
+      have hf : fullDigits "32".toList = true := by decide
+      have hq : fullQuad (strip []) = false := by decide
+      simp only [and_self, if_true, h32, hf, hq, Bool.not_true, Bool.false_eq_true, if_false, Bool.not_false,
+        ne_eq, not_true_eq_false, false_and, List.nil_append, List.append_nil] at h
+      by_cases hsq : searchQuad a = true
+      · simp only [hsq, if_true] at h
+        obtain ⟨ip, len, h1, h2, h3, h4, h5⟩ := V4.tail_inv a "32".toList o ha (by decide) h
+        rw [makeNetmask4_32] at h4
+        cases h4
+        exact ⟨ip, 32, h1, h2, h5, Or.inl ⟨rfl, by rw [hs, h3]⟩⟩
+      · simp [hsq] at h
+    | pfx a p ha hp hs hg =>
+      subst hg
+      have hsp : strip p = p := strip_noSpace p (fun c hc => isSpace_of_isReDigit c (hp.2 c hc))
+      have hfd : fullDigits p = true := by
+        unfold fullDigits; simp [hp.1]; exact hp.2
+      have hq : fullQuad (strip []) = false := by decide
+      simp only [hp.1, and_false, if_false, hsp, hfd, hq, Bool.not_true, Bool.false_eq_true, Bool.not_false, if_true,
+        ne_eq, not_true_eq_false, false_and, List.nil_append, List.append_nil] at h
+      by_cases hsq : searchQuad a = true
+      · simp only [hsq, if_true] at h
+        obtain ⟨ip, len, h1, h2, h3, h4, h5⟩ := V4.tail_inv a p o ha (run_ne p hp '/' (by decide)) h
+        have hd := makeNetmask4_run_sound p len hp h4
+        exact ⟨ip, len, h1, h2, h5, Or.inr (Or.inl ⟨p, hp.1, hd.1, hd.2.1, by rw [hs, h3]⟩)⟩
+      · simp [hsq] at h
+    | slashMask a m ha hm' hs hg =>
+      subst hg
+      obtain ⟨ip, len, mv, h1, h2, h3, h4, h5, h6, h7⟩ := V4.inv_mask a m o ha hm' h
+      exact ⟨ip, len, h1, h2, h7, Or.inr (Or.inr (Or.inl ⟨mv, h3, h6, by rw [hs, h4, h5]⟩))⟩
+    | spaceMask a ws m ha hm' hws hsp hs hg =>
+      subst hg
+      obtain ⟨ip, len, mv, h1, h2, h3, h4, h5, h6, h7⟩ := V4.inv_mask a m o ha hm' h
+      exact ⟨ip, len, h1, h2, h7, Or.inr (Or.inr (Or.inr ⟨mv, ws, h3, h6, hws, hsp, by rw [hs, h4, h5]⟩))⟩
+
 end Ccp.IPText
